@@ -3,9 +3,9 @@
 (* Property-level specification of ChangeSet (C16) as a function of one    *)
 (* logged experiment: the (entity index, amount) pairs in arrival order,   *)
 (* how they were fed in (collect / extend / add - irrelevant to the        *)
-(* result), and what the real ChangeSet then showed.  Amounts are          *)
-(* sequences and "+=" is concatenation, so that combination in arrival     *)
-(* order is observable.                                                    *)
+(* result), and what the real ChangeSet then showed.  Amounts record how    *)
+(* they were combined ("+=" builds the expression "(lhs+rhs)"), so both    *)
+(* the order and the association of the combination are observable.        *)
 (***************************************************************************)
 EXTENDS Naturals, Integers, Sequences, FiniteSets, TLC
 
@@ -18,10 +18,15 @@ SortedSeq(T) ==
                       ELSE LET m == CHOOSE x \in rest : \A y \in rest : x <= y IN B(rest \ {m}, Append(acc, m))
   IN B(T, <<>>)
 
-\* the accumulated amount of index i: its amounts in arrival order
-RECURSIVE Acc(_, _, _)
-Acc(pairs, i, k) == IF k > Len(pairs) THEN <<>>
-                    ELSE (IF pairs[k][1] = i THEN <<pairs[k][2]>> ELSE <<>>) \o Acc(pairs, i, k + 1)
+\* the accumulated amount of index i: its amounts combined left to right in arrival order,
+\* written as the expression the combination builds: x1, (x1+x2), ((x1+x2)+x3), ...
+RECURSIVE AccFrom(_, _, _, _)
+AccFrom(pairs, i, k, acc) ==
+  IF k > Len(pairs) THEN acc
+  ELSE IF pairs[k][1] = i
+       THEN AccFrom(pairs, i, k + 1, IF acc = "" THEN ToString(pairs[k][2]) ELSE "(" \o acc \o "+" \o ToString(pairs[k][2]) \o ")")
+       ELSE AccFrom(pairs, i, k + 1, acc)
+Acc(pairs, i, k) == AccFrom(pairs, i, k, "")
 
 Mentioned(pairs) == {pairs[k][1] : k \in 1..Len(pairs)}
 
@@ -42,14 +47,14 @@ Check(ev) ==
       compAt(i) == ev.store[CHOOSE k \in 1..Len(ev.store) : ev.store[k][1] = i][2]
       o2 == SortedSeq(ids \cap sids)
       wantStore == [j \in 1..Len(o2) |-> <<o2[j], Acc(ev.pairs, o2[j], 1), compAt(o2[j])>>]
-      wantMut == [j \in 1..Len(want) |-> <<want[j][1], Append(want[j][2], ev.tag)>>]
+      wantMut == [j \in 1..Len(want) |-> <<want[j][1], "(" \o want[j][2] \o "+" \o ToString(ev.tag) \o ")">>]
       n == IF ev.take < 0 \/ ev.take > Len(wantMut) THEN Len(wantMut) ELSE ev.take
       wantValue == SubSeq(wantMut, 1, n)
       L == ev.ledger
       \* C19: clear() interrupted by a panicking destructor (ev.fclear = k > 0): afterwards the set
       \* lists nothing that was destroyed, accepts a new amount, and nothing is destroyed twice;
       \* what it still lists besides the new amount is unspecified (leaks are allowed)
-      wantPost == IF ev.fclear = 0 THEN <<>> ELSE <<<<ev.pairs[1][1], <<77>>>>>>
+      wantPost == IF ev.fclear = 0 THEN <<>> ELSE <<<<ev.pairs[1][1], "77">>>>
       wantValueF == IF ev.take < 0 \/ ev.take >= 1 THEN wantPost ELSE <<>>
   IN IF ev.panic # "" THEN {F("C16", "panic", ev.panic), F("C08", "panic", ev.panic)}
      ELSE IF ev.fclear > 0 THEN
